@@ -121,15 +121,20 @@ fn run_program<'a>(
         let name = op["op"].as_str().unwrap_or("?");
         if name == "return_err" {
             ret = Err(SErr::Shim(op["token"].as_u64().unwrap_or(0)));
-            sh.borrow().emit(json!({"e": "w", "op": op, "res": "ok"}));
+            sh.borrow().emit(json!({"e": "w", "op": op, "res": "ok", "st": "x"}));
             break;
         }
         if name == "return_ok" {
-            sh.borrow().emit(json!({"e": "w", "op": op, "res": "ok"}));
+            sh.borrow().emit(json!({"e": "w", "op": op, "res": "ok", "st": "x"}));
             break;
         }
         let _ = crate::take_panic();
         // take the state by value; each arm puts the successor state back
+        let stname = match &st {
+            WS::Q(_) => "q",
+            WS::R(_) => "r",
+            WS::Done => "done",
+        };
         let cur = std::mem::replace(&mut st, WS::Done);
         let mut next = WS::Done;
         let mut misuse = false;
@@ -221,7 +226,7 @@ fn run_program<'a>(
             eprintln!("scenario error: op {} in wrong state", name);
             std::process::exit(2);
         }
-        let mut ev = json!({"e": "w", "op": op, "res": resname(&r)});
+        let mut ev = json!({"e": "w", "op": op, "res": resname(&r), "st": stname});
         match r {
             Ok(Ok(())) => {
                 st = next;
@@ -257,7 +262,7 @@ fn run_program<'a>(
     if let Some(which) = alive {
         let _ = crate::take_panic();
         let r = panic::catch_unwind(AssertUnwindSafe(move || drop(st)));
-        let mut ev = json!({"e": "w", "op": {"op": "drop", "implicit": true, "which": which}});
+        let mut ev = json!({"e": "w", "op": {"op": "drop", "implicit": true}, "st": which});
         match r {
             Ok(()) => {
                 ev["res"] = json!("ok");
@@ -279,10 +284,10 @@ fn run_program<'a>(
 
 fn retname(r: &Result<(), SErr>) -> J {
     match r {
-        Ok(()) => json!("ok"),
-        Err(SErr::Io(e)) => json!({"io": format!("{:?}", e.kind())}),
-        Err(SErr::Shim(t)) => json!({"shim": t}),
-        Err(SErr::Panic) => json!("panic"),
+        Ok(()) => json!({"k": "ok", "token": -1}),
+        Err(SErr::Io(e)) => json!({"k": "io", "kind": format!("{:?}", e.kind()), "token": -1}),
+        Err(SErr::Shim(t)) => json!({"k": "shim", "token": t}),
+        Err(SErr::Panic) => json!({"k": "panic", "token": -1}),
     }
 }
 
@@ -422,7 +427,7 @@ impl MysqlShim<Transport> for PShim {
         self.sh
             .borrow()
             .emit(json!({"e": "cb", "name": "on_prepare", "text": tb}));
-        let spec = spec.unwrap_or_else(|| json!({"id": 1, "params": [], "cols": []}));
+        let spec = spec.unwrap_or_else(|| json!({"id": [1, 0, 0, 0], "params": [], "cols": []}));
         let _ = crate::take_panic();
         let ret: Result<(), SErr>;
         if spec.get("err").is_some() && !spec["err"].is_null() {
@@ -436,7 +441,7 @@ impl MysqlShim<Transport> for PShim {
                 Err(_) => "panic",
             };
             self.sh.borrow().emit(
-                json!({"e": "w", "op": {"op": "perror", "kind": spec["err"]["kind"], "msg": spec["err"]["msg"]}, "res": res}),
+                json!({"e": "w", "op": {"op": "perror", "kind": spec["err"]["kind"], "msg": spec["err"]["msg"]}, "res": res, "st": "p"}),
             );
             ret = match r {
                 Ok(Ok(())) => Ok(()),
@@ -447,7 +452,8 @@ impl MysqlShim<Transport> for PShim {
                 }
             };
         } else {
-            let id = spec["id"].as_u64().unwrap_or(1) as u32;
+            let idb = parse_bytes(&spec["id"]);
+            let id = u32::from_le_bytes([idb[0], idb[1], idb[2], idb[3]]);
             let params = mkcols(&spec["params"]);
             let cols = mkcols(&spec["cols"]);
             let r = panic::catch_unwind(AssertUnwindSafe(|| info.reply(id, &params, &cols)));
@@ -457,7 +463,7 @@ impl MysqlShim<Transport> for PShim {
                 Err(_) => "panic",
             };
             self.sh.borrow().emit(
-                json!({"e": "w", "op": {"op": "reply", "id": id, "params": spec["params"], "cols": spec["cols"]}, "res": res}),
+                json!({"e": "w", "op": {"op": "reply", "id": spec["id"], "params": spec["params"], "cols": spec["cols"]}, "res": res, "st": "p"}),
             );
             ret = match r {
                 Ok(Ok(())) => Ok(()),
@@ -486,7 +492,7 @@ impl MysqlShim<Transport> for PShim {
     ) -> Result<(), SErr> {
         self.sh
             .borrow()
-            .emit(json!({"e": "cb", "name": "on_execute", "id": id}));
+            .emit(json!({"e": "cb", "name": "on_execute", "id": id.to_le_bytes().to_vec()}));
         let ops = self.sh.borrow_mut().next_program();
         let cols = start_cols(&ops);
         let ok = self.log_params(params);
@@ -509,10 +515,10 @@ impl MysqlShim<Transport> for PShim {
     fn on_close(&mut self, stmt: u32) {
         self.sh
             .borrow()
-            .emit(json!({"e": "cb", "name": "on_close", "id": stmt}));
+            .emit(json!({"e": "cb", "name": "on_close", "id": stmt.to_le_bytes().to_vec()}));
         self.sh
             .borrow()
-            .emit(json!({"e": "cb_ret", "name": "on_close", "ret": "ok"}));
+            .emit(json!({"e": "cb_ret", "name": "on_close", "ret": {"k": "ok", "token": -1}}));
     }
 
     fn on_query(
@@ -549,7 +555,7 @@ impl MysqlShim<Transport> for PShim {
                 let m = parse_bytes(&op["msg"]);
                 let r = w.error(k, &m[..]);
                 self.sh.borrow().emit(
-                    json!({"e": "w", "op": op, "res": if r.is_ok() {"ok"} else {"err"}}),
+                    json!({"e": "w", "op": op, "res": if r.is_ok() {"ok"} else {"err"}, "st": "i"}),
                 );
                 if let Err(e) = r {
                     ret = Err(SErr::Io(e));
@@ -558,14 +564,14 @@ impl MysqlShim<Transport> for PShim {
             "return_err" => {
                 self.sh
                     .borrow()
-                    .emit(json!({"e": "w", "op": op, "res": "ok"}));
+                    .emit(json!({"e": "w", "op": op, "res": "ok", "st": "i"}));
                 ret = Err(SErr::Shim(op["token"].as_u64().unwrap_or(0)));
             }
             _ => {
                 // completed / init_ok / anything else: acknowledge
                 let r = w.ok();
                 self.sh.borrow().emit(
-                    json!({"e": "w", "op": {"op": "init_ok"}, "res": if r.is_ok() {"ok"} else {"err"}}),
+                    json!({"e": "w", "op": {"op": "init_ok"}, "res": if r.is_ok() {"ok"} else {"err"}, "st": "i"}),
                 );
                 if let Err(e) = r {
                     ret = Err(SErr::Io(e));
@@ -595,12 +601,12 @@ impl MysqlShim<Transport> for PShim {
 
     fn after_authentication(&mut self, ctx: &AuthenticationContext<'_>) -> Result<(), SErr> {
         let sh = self.sh.borrow();
-        let user = match &ctx.username {
-            Some(u) => sh.bytes(u),
-            None => J::Null,
+        let (user, has_user) = match &ctx.username {
+            Some(u) => (sh.bytes(u), true),
+            None => (json!([]), false),
         };
         let ncerts = ctx.tls_client_certs.map(|c| c.len() as i64).unwrap_or(-1);
-        sh.emit(json!({"e": "cb", "name": "auth", "user": user, "ncerts": ncerts}));
+        sh.emit(json!({"e": "cb", "name": "auth", "user": user, "has_user": has_user, "ncerts": ncerts}));
         let reject = sh.sc["shim"]["auth"].as_str() == Some("reject");
         let ret = if reject {
             Err(SErr::Shim(sh.sc["shim"]["auth_token"].as_u64().unwrap_or(4242)))
